@@ -504,6 +504,12 @@ def c12_jobs(tier):
         jobs.append(des("priorityqueue-cap" + cap, "queue", b, dl, procs=4, prios="0,0,1,1", budget=3, pq=cap, ops=pops,
                         script0="pqput0,pqput1,hold1", script1="pqput-1,pqreprio2,pqput1", script2="pqget,hold1,pqget",
                         script3="pqget,pqget"))
+    # priorities over the whole int64 range: differences beyond 2^31, 2^32 apart, the extremes
+    wide = ("pqput0,pqput3000000000,pqput4294967296,pqput-3000000000,pqput9223372036854775807,pqput-9223372036854775808,"
+            "pqget,pqcancel,pqreprio3000000001,pqreprio-9223372036854775807,hold0,hold1,exit")
+    jobs.append(des("priorityqueue-wide-priorities", "queue", b, dl, procs=3, prios="0,0,1", budget=4, pq="max", ops=wide,
+                    script0="pqput0,pqput3000000000,pqput4294967296,hold1", script1="pqput-3000000000,pqput9223372036854775807,hold1",
+                    script2="hold1,pqget,pqget,pqget"))
     # blocked producers / consumers that are told PREEMPTED because they lost a resource they hold
     jobs.append(des("objectqueue-with-resource", "queue", b, dl, procs=3, prios="0,1,2", budget=4, oq="1", res=1,
                     ops="oqput0,oqput0n,oqget,racq0,rpre0,rrel0,hold0,hold1,int0,exit",
@@ -557,6 +563,10 @@ def c13_jobs(tier):
         des("subscribe-dynamic", "condition", b, dl, procs=3, prios="0,1,2", budget=5, cond=1, res=1,
             ops="csub,cunsub,cwait3,cwait0,csig,setx1,racq0,rrel0,hold0,hold1,tadd1,int1,exit",
             script0="racq0,csub,hold1,rrel0,cunsub", script1="cwait3,hold1", script2="hold1,cwait3,hold1"),
+        # two conditions observing the same guard, subscribed and unsubscribed in every order
+        des("two-observers", "condition", b, dl, procs=3, prios="0,1,2", budget=6, cond=1, res=1,
+            ops="csub,cunsub,csubb,cunsubb,cwait3,racq0,rrel0,hold0,hold1,exit",
+            script0="racq0,csubb,csub,cunsubb,hold1,rrel0", script1="hold0,cwait3,hold1", script2="hold1,cwait3,hold1"),
         des("forwarded-pool", "condition", b, dl, procs=3, prios="0,1,2", budget=4, cond=1, pool=2,
             ops="cwait4,cwait0,csig,setx1,pacq1,pacq2,prel1,prel2,hold1,tadd1,int1,exit", subscribe="pool",
             script0="pacq2,hold1,prel2", script1="cwait4,hold1", script2="cwait4,hold1"),
@@ -685,7 +695,7 @@ spec("C20", jobs=c20_jobs,
 UNION_OPS = ("hold0,hold1,tadd1,tset1,tcancel0,tclear,yield,resume0,resume1,waitp0,waitp1,waitp2,evsched1,waite0,evcancel0,"
              "int0,int1,int2,stop0,stop1,stopself,exit,prio0.2,prio1.0,start1,"
              "racq0,rpre0,rrel0,pacq1,pacq2,ppre2,prel1,bput2,bget2,oqput0,oqget,pqput1,pqget,pqcancel,pqreprio2,"
-             "cwait0,cwait3,csig,setx1,ccancel1,cremove1,csub,cunsub,recon,recoff")
+             "cwait0,cwait3,csig,setx1,ccancel1,cremove1,csub,cunsub,csubb,cunsubb,recon,recoff")
 
 
 def c10_jobs(tier):
@@ -931,6 +941,12 @@ def c16_jobs(tier):
         return [j("tables", mode="tables"), j("lattice-16", "rel", mode="lattice", lbits=16), j("seq-K2", mode="seq", K=2),
                 j("seq-K2-O2", "rel", mode="seq", K=2), j("aliasvec-5", mode="aliasvec", maxn=5),
                 j("zigslow", "rel", mode="zigslow", tolppm=12000),
+                # the samplers are documented as thread safe: two threads with different seeds and shapes under the
+                # serialising scheduler (a scheduling point before every raw draw), and free-running under ThreadSanitizer
+                dict(name="threads-2", harness="c15_random", cfg="asan", opts=dict(mode="threads", nthreads=2, prop="c16"),
+                     bound_min=0, bound_max=2, deadline=600, crash_is_violation=True, recycle=1000),
+                dict(name="tsan-free-running", harness="c15_random", cfg="tsan", workers=1, opts=dict(mode="free", prop="c16"),
+                     bound_min=0, bound_max=0, deadline=600, crash_is_violation=True, recycle=1000),
                 # the same under the floating-point trap mask that cimba_run_experiment() gives its worker threads
                 j("lattice-12-fptrap", "rel", mode="lattice", lbits=12, fptrap=1),
                 j("seq-K2-O2-fptrap", "rel", mode="seq", K=2, fptrap=1)]
